@@ -39,7 +39,8 @@ def bystander():
     simulator, and stays alive: whatever the simulator or the blocks keep must be per system, not per process.  The last
     few bystanders are kept referenced (two systems alive at once), older ones are dropped."""
     import py4hw
-    hw = py4hw.HWSystem()
+    from py4hw.base import HWSystem      # (the catalogue temporarily replaces py4hw.HWSystem while it builds wrapped designs)
+    hw = HWSystem()
     a, b, r, q = hw.wire('by_a', 3), hw.wire('by_b', 3), hw.wire('by_r', 3), hw.wire('by_q', 3)
     py4hw.Constant(hw, 'by_ka', 5, a)
     py4hw.Constant(hw, 'by_kb', 6, b)
